@@ -300,7 +300,7 @@ def pair_cases(ref, reps):
     seen = set()
     for typ, segs in skeletons(ref, reps):
         s = "/".join(segs)
-        for v in (s + ":", ":" + s, typ + ":" + s, typ + ":", s + "/", "/" + s, s + ":" + typ):
+        for v in (s + ":", ":" + s, typ + ":" + s, typ + ":", s + "/", "/" + s, s + ":" + typ, s):
             for a, b in ((s, v), (v, s)):
                 if (a, b) not in seen:
                     seen.add((a, b))
@@ -312,6 +312,13 @@ def check_pair(ref, a, b):
     env.reset()
     try:
         observe(a)
+        if a == b:
+            # the same string asked again after a caller edited what the first answer handed out
+            from spil import Sid
+            d = Sid(a).fields
+            for k in list(d):
+                d[k] = "edited"
+            d["injected"] = "x"
         o = observe(b)
     except Exception as e:  # noqa
         return [dict(signature=f"exception/{type(e).__name__}/pair", observed=repr(e), expected="no exception")]
